@@ -59,7 +59,7 @@ CLAIMS.update({
          "text": "PARTIAL. K1: sbe_schema_validator::value_fits_into_type -> string_to_number<T> -> libstdc++ from_chars (real code through hook H2) accepts exactly the decimal literals representable in each of the 9 integer primitive types, for all byte strings up to maxdigits+2 bytes. K3: every boundary-valid / one-edit-invalid schema that the rebuilt sbeppc accepts is layout-sound on its generated code (pairwise non-interference and containment of all members, choice bits inside the width); rejected twins are recorded (exit status + located diagnostic) as observations. Reference/cycle/kind/name/XML rules and FP literals are not encoded.",
          "note": "C08 is claimed for the representability kernel and the accepted-implies-sound direction only. "},
  "C11": {"level": "other", "ref": "DESIGN.md §6 C11",
-         "text": "PARTIAL. Solver half: every getter / observer on views with const byte type returns the reference value and leaves every byte of a symbolic buffer unchanged (visiting on const views: C19 visitcc; the 'never writes' frame assertion is also part of every C02/C04/C06/C19 harness). Type-level half is decided by the clang front end while lowering (generated static_asserts with positive controls + negative compile probes), recorded as observations, not as solver verdicts.",
+         "text": "PARTIAL. Solver half: every getter / observer and every cursor getter (five kinds, const-byte cursor) on views with const byte type returns the reference value and leaves every byte of a symbolic buffer unchanged (visiting on const views: C19 visitcc; the 'never writes' frame assertion is also part of every C02/C04/C06/C19 harness). Type-level half is decided by the clang front end while lowering (generated static_asserts with positive controls + negative compile probes), recorded as observations, not as solver verdicts.",
          "note": "C11's compile-time half is not a solver verdict. "},
 })
 for k in CLAIMS: NA.pop(k, None)
